@@ -1,4 +1,5 @@
 #!/bin/sh
+export PYVC_EVIDENCE_DIR=/tmp/pyvc_scratch_evidence   # checks against changed trees must not overwrite /verif/evidence
 # tools/mut.sh '<python snippet editing variable s of file F>' F <check args...>
 # Runs a check against a scratch copy of /repo with one file edited (never touches /repo).
 set -e
